@@ -781,6 +781,16 @@ class Engine:
                 from .summaries import int_try_from, INT_RANGE
                 if mt.group(1) in INT_RANGE and mt.group(2) in INT_RANGE:
                     summ = int_try_from(mt.group(1), mt.group(2))
+        if summ is None and not args and name.endswith(' as std::default::Default>::default') and name.startswith('<'):
+            # Default of a primitive: zero / false
+            prim = name[1:name.index(' as ')]
+            from .summaries import INT_RANGE as _IR
+            if prim in _IR:
+                return self.finish_call(st, fr, bb, dest, target, C(0, prim), work, results, site)
+            if prim == 'bool':
+                return self.finish_call(st, fr, bb, dest, target, C(0, 'bool'), work, results, site)
+            if prim in ('f64', 'f32'):
+                return self.finish_call(st, fr, bb, dest, target, C(0.0, prim), work, results, site)
         if summ is not None:
             res = summ(self, st, fr, args, fn, site)
             if res is not None:
